@@ -167,6 +167,47 @@ func (c *Ctx) Check(which, rulePrefix string, evs []*interp.Event, min int, m Ma
 	}
 }
 
+// Exists records one obligation per requirement: some event among evs must
+// satisfy it (used for "a rejecting branch with this guard exists").
+func (c *Ctx) Exists(which, rule, construct string, evs []*interp.Event, m Macros, reqs ...Req) {
+	e := c.Engine(which)
+	if e == nil {
+		return
+	}
+	crs := c.compile(which, m, reqs)
+	for i := range crs {
+		r := &crs[i]
+		found := ""
+		for _, ev := range evs {
+			if d := c.evalReqArgs(e, ev.Atoms, nil, r, ev.Args); d == "" {
+				found = e.P.Pos(ev.Instr.Pos())
+				break
+			}
+		}
+		if found != "" {
+			c.ok(rule+"/"+r.Name, construct, found, "a site with the required guard exists")
+		} else {
+			c.bad(rule+"/"+r.Name, construct, "", fmt.Sprintf("none of the %d candidate sites carries the required guard: %v %v", len(evs), r.Any, r.Args))
+		}
+	}
+}
+
+// CountAtoms returns how many atoms of the set match the pattern under env.
+func (c *Ctx) CountAtoms(which string, atoms term.Set, env term.Env, m Macros, src string) int {
+	e := c.Engine(which)
+	p := c.pats(which, m, src)[0]
+	if env == nil {
+		env = term.Env{}
+	}
+	n := 0
+	for _, id := range atoms {
+		if e.T.Match(p, id, env, func(term.Env) bool { return true }) {
+			n++
+		}
+	}
+	return n
+}
+
 // CheckRets evaluates requirements on the return alternatives of an entry that
 // satisfy the selector patterns (e.g. nil error result).
 func (c *Ctx) CheckRets(which, rulePrefix string, rr *interp.RunResult, sel func(r *interp.Ret) bool, min int, m Macros, reqs ...Req) {
